@@ -1505,9 +1505,12 @@ class ExtendedToOriginalDecorator:
         try:
             outcome = getattr(self.decorated, "addUnexpectedSuccess", None)
             if outcome is None:
+                # Not every test object (e.g. PlaceHolder) can fail() or has a
+                # usable failureException.
+                failure = getattr(test, "failureException", None) or AssertionError
                 try:
-                    test.fail("")
-                except test.failureException:
+                    raise failure("")
+                except failure:
                     return self.addFailure(test, sys.exc_info())
             if details is not None:
                 try:
